@@ -32,7 +32,7 @@ impl Prop for C02 {
          Among big-endian buckets with identical name lists the order is read from the produced table (any fixed tie-break is accepted, interpretation 3). (b) determinism: the same content built in >= 4 \
          different call orders (fresh archives = fresh hash states, one of them on another thread), each serialized twice, must give one byte string; per-case output digests are also compared \
          between the worker processes of the two builds. (c) byte stability: serialize(from_bytes(x)) == x. (d) a conforming non-canonical layout of the same content (reference writer) parsed and \
-         re-serialized gives the canonical bytes. Non-trivial: >= 2 string cells or >= 2 labels. Distinct = distinct case value."
+         re-serialized gives the canonical bytes. Thin slices use large archives (up to 24 000 bytes / 1 200 cells / 500 labels; thorough 300 000 / 70 000 / 5 000) and strings of up to 36 KiB; the string pool holds proper endings and beginnings of other pool strings. Non-trivial: >= 2 string cells or >= 2 labels. Distinct = distinct case value."
             .into()
     }
     fn assumptions() -> Vec<String> {
